@@ -157,3 +157,21 @@ def expect(cond: bool, msg: str) -> None:
     """Shape expectation of the analyser: failing it means 'unknown code shape' (exit 2), not a violation."""
     if not cond:
         raise AnalysisError("unknown shape: " + msg)
+
+
+def local_from(func: FuncNode, pred: Callable[[ast.AST], bool], nested: bool = False) -> Optional[str]:
+    """Name of the (first) local variable one of whose assigned values satisfies `pred` (rename-proof anchors)."""
+    it = ast.walk(func) if nested else body_walk(func)
+    for n in it:
+        for tgt, val in assign_targets(n):
+            if isinstance(tgt, ast.Name) and val is not None and not isinstance(n, (ast.For, ast.AsyncFor, ast.With)):
+                try:
+                    if pred(val):
+                        return tgt.id
+                except Exception:
+                    continue
+    return None
+
+
+def local_from_text(func: FuncNode, fragment: str, nested: bool = False) -> Optional[str]:
+    return local_from(func, lambda v: fragment in norm(v), nested)
